@@ -3,7 +3,7 @@
    documented trade-off the property statement excludes (no hint, no filter, no bucket, cross-generation overwrite); it
    is NOT a finding. *)
 From Coq Require Import ZArith List Bool.
-From OG Require Import C09.Model.
+From OG Require Import C09.Model C09.ChunkModel.
 Import ListNotations.
 Open Scope Z_scope.
 
@@ -15,3 +15,35 @@ Theorem C09_dup_refuted :
     cnt (agg_short 0 10 segs []) = 3 /\ cnt (agg_rows selected) = 2.
 Proof. eexists. eexists. repeat split. Qed.
 Print Assumptions C09_dup_refuted.
+
+(* ---- the two defects found by this check and since repaired in /repo: the `_current` variants of the model violate the
+   property (they are kept so that the correspondence can tell which variant a working tree implements) ---- *)
+
+(* C09-firstlast-chunk-time (before /repo 4c0ceca): branch (b) of FirstLastReader.Read stamps the row with the CHUNK's
+   first / last time. File: 9 rows, segments [0..18] and [23] (max-rows-per-segment 8); memtable row t=20 x=99.
+   first(x) over 19..23: the reader reports value 23 at time 0, which beats the memtable's (99, 20); the rows say 99. *)
+Theorem C09_first_chunk_time_refuted :
+  exists c mem lo hi,
+    c = mk_chunk [[(0, Some 0); (2, Some 2); (4, Some 4); (6, Some 6); (8, Some 8); (9, Some 9); (13, Some 13); (18, Some 18)]; [(23, Some 23)]] /\
+    sfirst (agg_chunks_current_reader false lo hi [c] mem) = Some (23, 0) /\
+    sfirst (agg_rows (filter (in_range lo hi) (all_chunk_rows [c] mem))) = Some (99, 20).
+Proof. eexists. exists [(20, Some 99)], 19, 23. repeat split. Qed.
+Print Assumptions C09_first_chunk_time_refuted.
+Theorem C09_last_chunk_time_refuted :
+  exists c mem lo hi,
+    c = mk_chunk [[(0, Some 0); (2, Some 2); (4, Some 4); (6, Some 6); (8, Some 8); (9, Some 9); (13, Some 13); (18, Some 18)]; [(23, Some 23)]] /\
+    slast (agg_chunks_current_reader false lo hi [c] mem) = Some (18, 23) /\
+    slast (agg_rows (filter (in_range lo hi) (all_chunk_rows [c] mem))) = Some (77, 19).
+Proof. eexists. exists [(19, Some 77)], 0, 20. repeat split. Qed.
+Print Assumptions C09_last_chunk_time_refuted.
+
+(* C09-memtable-last-time (before /repo 21620c9): the memtable builder stamps the last non-null VALUE with the time of
+   the record's last ROW. File: x=4 at t=6. Memtable record of a two-aggregate statement: x=2 at t=5 and a row at t=7
+   that carries only the other field. last(x) over 0..9: the memtable's (2, 7) beats the file's (4, 6); the rows say 4. *)
+Theorem C09_memtable_last_time_refuted :
+  exists c mem lo hi,
+    c = mk_chunk [[(6, Some 4)]] /\ mem = [(5, Some 2); (7, None)] /\
+    slast (agg_chunks_current_mem true lo hi [c] mem) = Some (2, 7) /\
+    slast (agg_rows (filter (in_range lo hi) (all_chunk_rows [c] mem))) = Some (4, 6).
+Proof. eexists. eexists. exists 0, 9. repeat split. Qed.
+Print Assumptions C09_memtable_last_time_refuted.
